@@ -28,30 +28,30 @@ type Clause struct {
 }
 
 type Contract struct {
-	Key       string // e.g. "(Keeper).RecvPacket" or "IFACE ClientState.VerifyPacketCommitment"
-	PkgPath   string
-	Fn        *ssa.Function
-	IfaceType string // for interface contracts: qualified interface type name
-	Method    string
-	Params    []string // explicit parameter names for interface contracts
-	Requires  []Clause
-	Ensures   []Clause
-	Modifies  []Clause
-	Lets      map[string]ast.Expr
-	LetOrder  []string
-	NoPanic   bool
-	Trusted   bool
-	Pure      bool
+	Key        string // e.g. "(Keeper).RecvPacket" or "IFACE ClientState.VerifyPacketCommitment"
+	PkgPath    string
+	Fn         *ssa.Function
+	IfaceType  string // for interface contracts: qualified interface type name
+	Method     string
+	Params     []string // explicit parameter names for interface contracts
+	Requires   []Clause
+	Ensures    []Clause
+	Modifies   []Clause
+	Lets       map[string]ast.Expr
+	LetOrder   []string
+	NoPanic    bool
+	Trusted    bool
+	Pure       bool
 	Invariants map[int][]Clause
 	Continues  map[int][]Clause // checked at every back edge of loop N
 	ForKeys    map[int]*ForKey  // loop N iterates a store: verify its body for an arbitrary key of a family
 	Unroll     map[int]int
-	File      *ContractFile
-	Line      int
-	Assumes   []string // free-text assumption notes
-	CallSites []CallSiteClause
-	Inline    bool
-	renameTo  []string // verifyImpl: additional (interface) names for the parameters, positionally
+	File       *ContractFile
+	Line       int
+	Assumes    []string // free-text assumption notes
+	CallSites  []CallSiteClause
+	Inline     bool
+	renameTo   []string // verifyImpl: additional (interface) names for the parameters, positionally
 }
 
 // ForKey: "loop N forkey v1 T1, v2 T2 :: keyExpr [requires cond]". The body of loop N is executed with the
@@ -97,16 +97,16 @@ type ContractFile struct {
 }
 
 type Contracts struct {
-	P       *Program
-	byFn    map[*ssa.Function]*Contract
-	iface   map[string]*Contract // "pkgpath.Iface.Method"
-	extern  map[string]*Contract // call name -> assumed contract (axiom files); last one parsed
+	P         *Program
+	byFn      map[*ssa.Function]*Contract
+	iface     map[string]*Contract // "pkgpath.Iface.Method"
+	extern    map[string]*Contract // call name -> assumed contract (axiom files); last one parsed
 	externAll map[string][]*Contract
-	specs   map[string]*SpecFunc
-	preds   map[string]*Pred
-	all     []*Contract
-	files   []*ContractFile
-	errs    []string
+	specs     map[string]*SpecFunc
+	preds     map[string]*Pred
+	all       []*Contract
+	files     []*ContractFile
+	errs      []string
 }
 
 func (cx *Contracts) forFunc(fn *ssa.Function) *Contract {
